@@ -306,6 +306,19 @@ fn execute(cfg: &Cfg, harness: &Value, schedule: &[usize], scratch: &Scratch) ->
                             kvs.put(k.as_bytes(), v.as_bytes()).map_err(|e| e.to_string())?;
                             Ok(Some(Call::Put(k.into(), v.into())))
                         }
+                        // a write the store must refuse (key longer than sst::MAX_KEY_LEN): the
+                        // caller gets an error and nobody else may be affected
+                        "put-oversize" => {
+                            // (put/del check the length up front; a batch is checked entry
+                            // by entry only when it is copied into the log's batch)
+                            let k = vec![b'k'; sst::MAX_KEY_LEN + 1];
+                            let mut wb = WriteBatch::with_capacity(1);
+                            wb.put(&k, b"v");
+                            match kvs.write(wb) {
+                                Err(_) => Ok(None),
+                                Ok(()) => Err("a key longer than MAX_KEY_LEN was accepted".to_string()),
+                            }
+                        }
                         "del" => {
                             let k = op[1].as_str().unwrap();
                             kvs.del(k.as_bytes()).map_err(|e| e.to_string())?;
@@ -673,6 +686,15 @@ fn harnesses(prop: &str) -> Vec<Value> {
                 "threads": [[["batch", [["a", "1"], ["b", "1"]]]], [["flush"]], [["open-scan"], ["reread"], ["reread"]]]}));
             v.push(json!({"name": "reread-two-writers-flush-compaction", "pre": [["put", "x", "0"], ["flush"], ["put", "x", "1"]],
                 "threads": [[["put", "a", "1"], ["del", "x"]], [["flush"], ["compact"]], [["open-scan"], ["reread"], ["reread"]], [["put", "b", "2"]]]}));
+        }
+        "C20" => {
+            // a refused write must not hold up the writers queued behind it
+            v.push(json!({"name": "refused-write-vs-put", "pre": [],
+                "threads": [[["put-oversize"]], [["put", "a", "1"], ["get", "a"]]]}));
+            v.push(json!({"name": "refused-write-vs-put-vs-flush", "pre": [["put", "x", "0"]],
+                "threads": [[["put-oversize"]], [["put", "a", "1"]], [["flush"]], [["get", "a"]]]}));
+            v.push(json!({"name": "two-refused-writes-vs-two-puts", "pre": [],
+                "threads": [[["put-oversize"], ["put", "b", "1"]], [["put", "a", "1"]], [["put-oversize"]]]}));
         }
         _ => panic!("unknown property"),
     }
